@@ -66,7 +66,7 @@ PROFILES = {
                       dict(ids=REGEN_SLOW, first=["simulate"], edits=["regenerate"], depth=2, n=(24, 400))]),
     "C08": dict(own=["nochange", "tagging", "tagging.run"],
                 gens=[dict(ids=["SLit", "SLit", "SOne", "SChain", "SNest", "S2", "S2", "Dm", "Dm2", "DmMap", "DmCon", "Msk", "VmS", "VmAx", "SwSame", "SVm", "OrE", "OrE", "MskSw", "SDm"], ids_thorough=FAST + ["SLit", "S2", "Dm2"],
-                           first=["simulate", "generate"], edits=["update", "update", "update", "updateargs", "regenerate", "staticreq"], depth=3, n=(160, 2400)),
+                           first=["simulate", "generate"], edits=["update", "update", "update", "updateargs", "regenerate", "staticreq", "empty"], depth=3, n=(160, 2400)),
                       dict(ids=SLOW, first=["simulate"], edits=["update", "updateargs", "indexupdate"], depth=2, n=(24, 500))]),
     "C10": dict(own=["project.value", "project.split", "run"],
                 gens=[dict(ids=PROJ, first=["simulate", "generate"], edits=["project", "project", "project", "update"], depth=4, n=(128, 2400)),
@@ -100,8 +100,8 @@ PROFILES = {
     "C35": dict(own=["mask.equiv", "mask.run", "gen.agree", "gen.weight", "upd.constrained", "upd.kept", "upd.weight", "run"],
                 gens=[dict(ids=[x for x in FAST if x not in ("SwXY", "Sw3", "SSw", "OrE", "MixE")], first=["generatemask"], edits=["updatemask", "updatemask", "update"], depth=2, n=(128, 2400)),
                       dict(ids=["Sc1", "Sc2", "Acc"], first=["generatemask"], edits=["updatemask"], depth=1, n=(24, 300))]),
-    "C38": dict(own=["derived.run", "derived.same", "empty.identity", "static.others", "upd.constrained", "upd.args"],
-                gens=[dict(ids=FAST, first=["simulate", "generate"], edits=["update", "regenerate", "empty", "empty", "staticreq", "diffannotate"], depth=3, n=(128, 2400)),
+    "C38": dict(own=["derived.run", "derived.same", "empty.identity", "static.others", "upd.constrained", "upd.args", "nochange", "upd.kept", "upd.weight"] + TRC,
+                gens=[dict(ids=FAST + ["SNest", "SDm", "SSw", "SVm", "STup3"], first=["simulate", "generate"], edits=["update", "regenerate", "empty", "empty", "staticreq", "staticreq", "diffannotate"], depth=3, n=(128, 2400)),
                       dict(ids=SLOW, first=["simulate", "generate"], edits=["update", "empty"], depth=1, n=(24, 400))]),
 }
 
